@@ -25,7 +25,8 @@ META = {
              '), axis ratios up to 2^40.'
              " Round 16: descriptions that already carry several scales (the info of an existing dataset)."
              " Round 17: descriptions whose scale already carries chunk_sizes / key."
-             " Round 18: an earlier generation whose result the caller edits in place."),
+             " Round 18: an earlier generation whose result the caller edits in place."
+             " Round 19: block sizes that are not powers of two."),
     "trusted_base": ["validity predicate formalising the docstring of "
                      "fill_scales_for_dyadic_pyramid", "vlib/refs/"
                      "pyramid_model.py (cross-validated in C06)"],
@@ -396,7 +397,8 @@ def cases(draw):
             "encoding": enc, "data_type": dt, "num_channels": nch,
             "desc_encoding": draw(st.integers(0, 3)) == 0,
             "desc_block": draw(st.sampled_from(
-                [None, None, [8, 8, 8], [4, 4, 4], [16, 8, 2]]))
+                [None, None, [8, 8, 8], [4, 4, 4], [16, 8, 2], [6, 6, 6],
+                 [8, 8, 3], [5, 7, 1]]))
             if enc == "compressed_segmentation" else None,
             "extra_scales": draw(st.sampled_from([0, 0, 0, 1, 3, 9, 14])),
             "desc_chunk_size": draw(st.sampled_from([None, None, 256, 7, 1,
